@@ -55,10 +55,7 @@ func quoteSpec(v []byte) []byte {
 
 func runC17(ctx *Ctx) {
 	alpha := []byte{'\\', '"', 'a', ' ', '#', '/'}
-	maxLen := ctx.Budget(6, 8)
-	if ctx.Wide && !ctx.Thorough() {
-		maxLen = 7
-	}
+	maxLen := ctx.Len(6, 8)
 	// ---- correspondence: unescapeParameter vs Model.unescape
 	var inputs [][]byte
 	enumStrings(alpha, maxLen, func(s []byte) {
